@@ -154,7 +154,7 @@ CODEC_TRUST = ["the codec model (AvroModel/Codec.lean, Build.lean) is hand-writt
                "hardware float32<->float64 conversion, time.Date/Format (parameters of the model: Env)"]
 PROPS["C03"] = {
     "lean_modules": ["AvroModel.Props.C03"],
-    "required_theorems": ["decode", "decode_ok", "misfit_is_error", "int_out_of_range", "array_plan_irrelevant", "read_never_panics"],
+    "required_theorems": ["decode", "decode_ok", "misfit_is_error", "int_out_of_range", "array_plan_irrelevant", "read_never_panics", "decode_budget", "decode_ok_budget", "misfit_is_error_budget", "file_decode"],
     "harness": [("RD", "C03")],
     "level_text": "Proof: `decode` - for every schema the specification defines, every datum, every writer plan (any block partition of arrays "
                   "and maps, with or without byte-size prefixes, null in either union position, multi-branch unions), every Go target for which "
@@ -171,7 +171,7 @@ PROPS["C03"] = {
 }
 PROPS["C04"] = {
     "lean_modules": ["AvroModel.Props.C04"],
-    "required_theorems": ["skip_exact", "skip_exact_built", "skip_eq_read", "untargeted_field_untouched", "no_matching_fields", "remaining_field_value"],
+    "required_theorems": ["skip_exact", "skip_exact_built", "skip_eq_read", "untargeted_field_untouched", "no_matching_fields", "remaining_field_value", "skip_exact_budget", "skip_exact_built_budget"],
     "harness": [("RD", "C04")],
     "level_text": "Proof: skip consumes exactly the bytes of a datum for every codec, datum, plan (incl. the block-size fast path) and budget "
                   "(skip_exact); skip and read leave the same remainder (skip_eq_read); untargeted Go fields keep their value, a struct with no "
@@ -383,7 +383,7 @@ PROPS["C14"] = {
 
 PROPS["C01"] = {
     "lean_modules": ["AvroModel.Props.C01", "AvroModel.Props.C01b"],
-    "required_theorems": ["record_roundtrip", "record_exact", "two_records", "blocks_partition", "flush_leaves_nothing", "file_roundtrip", "value_roundtrip", "value_roundtrip_exact", "value_roundtrip_spec", "norm_idempotent", "typed_codec_exists", "typed_roundtrip"],
+    "required_theorems": ["record_roundtrip", "record_exact", "two_records", "blocks_partition", "flush_leaves_nothing", "file_roundtrip", "value_roundtrip", "value_roundtrip_exact", "value_roundtrip_spec", "norm_idempotent", "typed_codec_exists", "typed_roundtrip", "record_exact_budget", "value_roundtrip_budget", "value_roundtrip_exact_budget", "value_roundtrip_spec_budget", "value_roundtrip_go", "file_value_roundtrip", "file_value_roundtrip_go"],
     "harness": [("E2E", "C01")],
     "level_text": "Proof in layers that are composed formally. (1) records: record_roundtrip / record_exact - Codec.Read of what "
                   "Codec.Write appended, followed by anything, delivers the written datum's value and the exact rest, for every codec tree, "
